@@ -11,7 +11,6 @@ mod c11;
 mod c12;
 mod c14;
 mod c17;
-mod c19;
 mod c20;
 mod c21;
 mod c22;
@@ -43,7 +42,6 @@ pub fn run(item: &str, repo: &str, out: &str) -> Result<String, String> {
         c12::run,
         c14::run,
         c17::run,
-        c19::run,
         c20::run,
         c21::run,
         c22::run,
